@@ -766,6 +766,10 @@ class Engine(object):
             f_ = z3.Function("in:%s" % sorted(map(repr, container.obj)), Opaque, B)
             self.assumptions.add("membership of an uninterpreted value in a constant set is a function of the value")
             return f_(x.z)
+        if isinstance(container, VOpaque) and isinstance(x, VStr):
+            # membership of a string in an uninterpreted container: a function of the two (the same in code and specification)
+            self.assumptions.add("membership of a string in an uninterpreted container is a function of the container and the string (the container is not mutated in between)")
+            return z3.Function("in:opaque", Opaque, S, B)(container.z, x.z)
         self.abstracted.add("abstracted: membership test")
         return fresh("in", B)
 
